@@ -137,8 +137,15 @@ def iter_files(
     """
     directory = Path(directory)
     if subset_files is not None:
+        # A symbolic link is not a covered file, and naming it does not name
+        # the file it points to.
         subset_files = cast(
-            set[Path], {Path(file_).resolve() for file_ in subset_files}
+            set[Path],
+            {
+                Path(file_).resolve()
+                for file_ in subset_files
+                if not Path(file_).is_symlink()
+            },
         )
 
     for root_str, dirs, files in os.walk(directory):
